@@ -45,7 +45,7 @@ struct thr {
 	void (*fn)(int); void *(*pfn)(void *); void *parg; int want_join;
 	int needs_empty;          /* pending action is enabled only on an empty buffer */
 	pthread_mutex_t *want_mutex; int32_t *want_futex; int woken; int wake_reason; pthread_cond_t *want_cond;
-	int sig_pending; long steps; long rets;
+	int sig_pending; long steps; long rets; int masked; int sig_deferred; sigset_t mask;
 } T[MAXT];
 static struct { pthread_mutex_t *m; int owner; } MX[128]; static int nmx;
 static int mx_idx(pthread_mutex_t *m){ for(int i=0;i<nmx;i++) if(MX[i].m==m) return i; MX[nmx].m=m; MX[nmx].owner=-1; return nmx++; }
@@ -205,6 +205,15 @@ long vh_syscall(long nr, ...){
 		else { yield_point(1); int n=0; for(int t=0;t<NT && n<val;t++) if(T[t].want_futex==ua && !T[t].woken){ T[t].woken=1; n++; }
 			printf("%d futex_wake %s -> %d\n", me,l,n); return n; } }
 	va_end(ap); printf("unexpected syscall %ld\n", nr); fflush(stdout); _exit(5); }
+/* signal mask emulation: a signal chosen by the schedule while the thread has it blocked stays pending and is delivered when the mask is lifted */
+#undef pthread_sigmask
+int vh_pthread_sigmask(int how, const sigset_t *set, sigset_t *old){
+	if(me<0) return pthread_sigmask(how,set,old);
+	if(old) *old=T[me].mask;
+	if(set){ if(how==SIG_SETMASK) T[me].mask=*set; else for(int s=1;s<32;s++) if(sigismember(set,s)){ if(how==SIG_BLOCK) sigaddset(&T[me].mask,s); else sigdelset(&T[me].mask,s); } }
+	T[me].masked = sigismember(&T[me].mask,SIGUSR1);
+	if(!T[me].masked && T[me].sig_deferred && sig_handler){ T[me].sig_deferred=0; printf("%d signal (was pending)\n", me); sig_handler(me); printf("%d sigreturn\n", me); }
+	return 0; }
 int vh_poll(void *fds, unsigned long n, int ms){ (void)fds; (void)n; (void)ms; vh_pre(VK_SLEEP,0,0,0,0,0); return 0; }
 int vh_usleep(unsigned us){ (void)us; vh_pre(VK_SLEEP,0,0,0,0,0); return 0; }
 void vs_call(const char *op, unsigned long a){ if(me<0||noyield) return; yield_point(0); char v[64]; pval(v,a,8); printf("%d call %s %s\n", me, op, v); }
@@ -245,7 +254,16 @@ void vs_run(const char *sched){
 		if(c>='a'&&c<'a'+NT){ int t=c-'a'; if(T[t].nbuf){ char l[64], v[64]; vs_ploc(l,T[t].buf[0].addr); pval(v,T[t].buf[0].v,T[t].buf[0].sz); commit_one(t); printf("%d flush %s v=%s\n", t, l, v);} continue; }
 		if(c>='A'&&c<'A'+NT){ int t=c-'A'; if((T[t].want_futex||T[t].want_cond)&&!T[t].woken){ T[t].woken=1; T[t].wake_reason=1; printf("%d spurious\n",t);} continue; }
 		if(c=='!'){ if(*p){ int t=*p++-'0'; if(t>=0&&t<NT&&T[t].want_futex&&!T[t].woken){ T[t].woken=1; T[t].wake_reason=2; } } continue; }
-		if(c=='^'){ if(*p){ int t=*p++-'0'; if(t>=0&&t<NT&&T[t].alive&&sig_handler&&!T[t].want_futex&&T[t].want_join<0){ T[t].sig_pending=1; sem_post(&T[t].go); sem_wait(&ctl);} } continue; }
+		if(c=='^'){ if(*p){ int t=*p++-'0'; if(t>=0&&t<NT&&T[t].alive&&sig_handler&&!T[t].want_futex&&T[t].want_join<0){ if(T[t].masked){ T[t].sig_deferred=1; } else { T[t].sig_pending=1; sem_post(&T[t].go); sem_wait(&ctl);} } } continue; }
+		if(c=='}'){ /* solo run with report (C17): thread t alone until its current operation returns; at most 400 own steps */
+			if(*p){ int t=*p++-'0'; if(t>=0&&t<NT&&T[t].alive){ long r0=T[t].rets, s0=T[t].steps; int guard=0; const char *why="ok";
+				while(T[t].alive && T[t].rets==r0){
+					if(guard++>=400){ why="LIMIT"; break; }
+					if(T[t].needs_empty && T[t].nbuf){ commit_one(t); continue; }
+					if(!enabled(t)){ why="blocked"; break; }
+					sem_post(&T[t].go); sem_wait(&ctl); }
+				printf("%d solo %ld %s\n", t, T[t].steps-s0, why); } }
+			continue; }
 		if(c=='>'){ /* run thread t until it completes its current operation (next ret event), flushing its own buffer when needed */
 			if(*p){ int t=*p++-'0'; if(t>=0&&t<NT){ long r0=T[t].rets; int guard=0;
 				while(T[t].alive && T[t].rets==r0 && guard++<5000){
